@@ -212,7 +212,7 @@ func RunE1(env *Env, p *Prop) *Result {
 				}
 				wr, code, err := runWorkerOnceEnv(env, args, fmt.Sprintf("VERIF_HANG_FACTOR=%g", hangFactor))
 				if code == 3 && wr != nil && wr.hang != nil {
-					if okh, _ := wr.hang["ok"].(bool); !okh && scratchRetries < 2 {
+					if okh, _ := wr.hang["ok"].(bool); !okh && scratchRetries < 1 {
 						wr.stats = nil // discarded: the worker is re-run from the beginning
 					}
 				}
@@ -277,7 +277,7 @@ func RunE1(env *Env, p *Prop) *Result {
 						note = err.Error()
 					}
 				}
-				if !ok && code == 3 && scratchRetries < 2 {
+				if !ok && code == 3 && scratchRetries < 1 {
 					// the watchdog fired before any case was published (a slow start on a
 					// loaded machine): run this worker again from the beginning with a longer limit
 					scratchRetries++
